@@ -6,8 +6,10 @@ import Inkayaku.Model.SpecOps
 import Inkayaku.Model.Pgn
 import Inkayaku.Model.Uci
 import Inkayaku.Model.SessionOps
+import Inkayaku.Model.AppOps
 import Inkayaku.Model.Lichess
 import Inkayaku.Model.SpecSearch
+import Inkayaku.Model.RepSpec
 import Inkayaku.Model.Console
 import Inkayaku.Spec.UciOut
 /-!
@@ -62,7 +64,10 @@ def dispatch (op : String) (args : List String) : String :=
   | "spec:sanmv" => SpecOps.handleSanMv args
   | "spec:gamesan" => SpecOps.handleGameSan args
   | "session" => SessionOps.handleSession args
+  | "app" => AppOps.handleApp args
   | "spec-search" => SpecSearch.handleSpecSearch args
+  | "rep-search" => RepSpec.handleRepSearch args
+  | "perpetual" => RepSpec.handlePerpetual args
   | "json" => Lichess.handleJson args
   | "pgn" => Pgn.handlePgn args
   | "uciparse" => Uci.handleUciParse args
